@@ -2,10 +2,10 @@
 
   python -m harness.seedcheck import <outdir>        copy <outdir>/Cxx-k.{diff,json} + demo into /verif/seeded/Cxx-<tag>k/ after
                                                      verifying (scratch worktree): patch applies, suite passes, demo fails with / passes without
-  python -m harness.seedcheck run [ID…] [--all-checks]   apply each seeded patch to /repo, run the property's quick check
-                                                     (or all checks), undo, record the outcome in meta.json
+  python -m harness.seedcheck run [ID…] [--all-checks]   apply each seeded patch to a scratch worktree of /repo's HEAD, point the property's quick check
+                                                     (or all checks) at it (CKL_REPO), record the outcome in meta.json
 
-The seeded changes are never committed to /repo; the working tree is restored after every run.
+The seeded changes are never applied to /repo itself.
 """
 import glob
 import json
@@ -32,7 +32,7 @@ def verify(diff, demo):
     os.rmdir(wt)
     res = {}
     try:
-        rc, out = sh(["git", "-C", REPO, "worktree", "add", "--detach", wt, "HEAD", "-q"])
+        rc, out = sh(["git", "-C", REPO, "worktree", "add", "--detach", wt, os.environ.get("SEEDCHECK_BASE", "HEAD"), "-q"])
         if rc != 0:
             return {"error": "worktree: " + out[-300:]}
         env = dict(os.environ, PYTHONPATH=os.path.join(wt, "src"))
@@ -80,6 +80,8 @@ def do_import(outdir, tag):
 
 
 def run_checks(ids, all_checks):
+    """each seeded patch is applied to a scratch worktree of /repo's HEAD and the checks are pointed at it (CKL_REPO); /repo itself
+    is never touched"""
     dirs = sorted(glob.glob(os.path.join(SEEDED, "C*-*")))
     for d in dirs:
         name = os.path.basename(d)
@@ -87,21 +89,24 @@ def run_checks(ids, all_checks):
             continue
         meta_p = os.path.join(d, "meta.json")
         meta = json.load(open(meta_p))
-        rc, out = sh(["git", "-C", REPO, "status", "--porcelain"])
-        if out.strip():
-            print("refusing: /repo working tree is not clean:", out[:200])
-            return
-        rc, out = sh(["git", "-C", REPO, "apply", os.path.join(d, "patch.diff")])
-        if rc != 0:
-            print(name, "patch does not apply:", out[-200:])
-            continue
+        wt = tempfile.mkdtemp(prefix="seedrun")
+        os.rmdir(wt)
         results = {}
         try:
+            rc, out = sh(["git", "-C", REPO, "worktree", "add", "--detach", wt, os.environ.get("SEEDCHECK_BASE", "HEAD"), "-q"])
+            if rc != 0:
+                print(name, "worktree:", out[-200:])
+                continue
+            rc, out = sh(["git", "-C", wt, "apply", os.path.join(d, "patch.diff")])
+            if rc != 0:
+                print(name, "patch does not apply:", out[-200:])
+                continue
             props = [f"C{i:02d}" for i in range(1, 21)] if all_checks else [meta["property"]]
             for p in props:
                 scratch_ev = tempfile.mkdtemp(prefix="seedev")
                 try:
-                    rc, out = sh([os.path.join(VERIF, "check"), p, "quick"], cwd=VERIF, timeout=3000, env=dict(os.environ, VERIF_EVIDENCE_DIR=scratch_ev))
+                    rc, out = sh([os.path.join(VERIF, "check"), p, "quick"], cwd=VERIF, timeout=3000,
+                                 env=dict(os.environ, VERIF_EVIDENCE_DIR=scratch_ev, CKL_REPO=wt))
                 finally:
                     shutil.rmtree(scratch_ev, ignore_errors=True)
                 viol = [ln for ln in out.splitlines() if ln.startswith("VIOLATION")]
@@ -115,12 +120,15 @@ def run_checks(ids, all_checks):
                 results[p] = {"exit": rc, "violations": len(viol), "no_failing_input": any("no-failing-input-found" in v for v in viol) and
                               not any("no-failing-input-found" not in v for v in viol), "first": detail}
         finally:
-            sh(["git", "-C", REPO, "checkout", "--", "."])
+            sh(["git", "-C", REPO, "worktree", "remove", "--force", wt])
+            shutil.rmtree(wt, ignore_errors=True)
+        if not results:
+            continue
         meta["checks_run"] = results
         meta["caught_by_own_property_check"] = results.get(meta["property"], {}).get("exit") == 1
         meta["caught_by"] = sorted(p for p, r in results.items() if r["exit"] == 1)
         json.dump(meta, open(meta_p, "w"), indent=1)
-        print(name, "caught by", meta["caught_by"], "|", results.get(meta["property"], {}).get("first", "")[:160])
+        print(name, "caught by", meta["caught_by"], "|", results.get(meta["property"], {}).get("first", "")[:160], flush=True)
 
 
 def table():
